@@ -77,6 +77,19 @@ package cli
 //@   noframe
 //@   protocol-only C10
 //@   deterministic
+//@   ghost np int
+//@   ghost nr int
+//@   init np = 0
+//@   init nr = 0
+//@   ensures [C09.count] result1 == nil ==> result0 != nil && result0.Summary.TotalFunctions == len(result0.Functions)
+//@   ensures [C09.count] result1 == nil ==> result0.Summary.Preserved == np && result0.Summary.RenamedFunctions == nr
+//@   ensures [C09.count] result1 == nil ==> result0.Summary.Preserved + result0.Summary.Modified + result0.Summary.Added + result0.Summary.Removed == result0.Summary.TotalFunctions
+//@   ensures [C09.count] result1 == nil ==> len(result0.TopologyMatches) == result0.Summary.Preserved + result0.Summary.Modified
+//@   loop 1 update np = prev(np) + ite(d.Status == "preserved", 1, 0)
+//@   loop 1 update nr = prev(nr) + ite(d.Status == "renamed", 1, 0)
+//@   loop 1 invariant [C09.count] 0 <= #i && #i <= len(matched) && len(functionDiffs) == #i && len(topologyMatches) == #i && preserved + modified == #i && preserved == np && renamed == nr
+//@   loop 2 invariant [C09.count] 0 <= #i && #i <= len(addedFuncs) && len(functionDiffs) == pre(len(functionDiffs)) + #i
+//@   loop 3 invariant [C09.count] 0 <= #i && #i <= len(removedFuncs) && len(functionDiffs) == pre(len(functionDiffs)) + #i
 
 // The per-file workers run concurrently: anything they append to shared state is an unordered collection; index-addressed slots are not.
 //@ func RunScanParallel$1
@@ -104,3 +117,16 @@ package cli
 //@   noframe
 //@   protocol-only C10
 //@   deterministic
+
+// ---- C04: a pair is reported preserved only on a genuine fingerprint match or when the structural matcher says so
+//@ func CompareFunctions
+//@   noframe
+//@   ghost zipPreserved bool
+//@   init zipPreserved = false
+//@   call (*Zipper).ComputeDiff update zipPreserved = result1 == nil && result0.Preserved
+//@   ensures [C04.status] result.Status == "preserved" ==> (oldResult.Fingerprint == newResult.Fingerprint && oldResult.Fingerprint != "OVERSIZED") || zipPreserved
+//@   ensures [C04.status] result.FingerprintMatch ==> oldResult.Fingerprint == newResult.Fingerprint
+//@   ensures [C04.status] [C09.status] result.Status == "preserved" || result.Status == "modified"
+
+// ---- C09: the summary counters are derived from the listed entries
+// np / nr (ghost): preserved and renamed entries appended so far, counted from the entries themselves.
